@@ -26,6 +26,11 @@ CLAIMS["C20"] = dict(
   text="From the MIR of the cli crate in /repo's current tree: NamedTempFile::persist in download_to_file is reachable only through the `?`-consumed success edges of Easy::perform, Easy::response_code, the `status == 200` edge and File::sync_all on the same temp file; the temp file is created with tempfile_in(parent(path)) for the very path that is persisted and the download body goes only to a clone of its handle; every call in the cli crate that creates, truncates, renames or removes files is enumerated and none outside that discipline receives a path derived from dirs::cache_dir() (taint propagated through call arguments); cached() falls back to the stale file, load() survives a currency failure, force_refresh_currency propagates errors. This is the write discipline the property rests on, decided for all paths; atomicity of rename, curl's error detection and kill -9 behaviour are OS/library semantics and are assumptions.",
   note="Trusted: rename(2) atomicity on one filesystem, curl reporting truncated/timeout transfers as errors of perform(), tempfile's drop clean-up, the driver. File-mutating call sites that do not involve the cache path are listed in the evidence, not judged.",
   design_ref="DESIGN.md section 4, C20")
+CLAIMS["C07"] = dict(
+  technique="fallback-order (single-edge cut-set) on MIR CFG of the three sibling lookup families + iteration-source/def-use facts + container type facts + who-may-call",
+  text="For Registry::lookup*, Registry::canonicalize* and the loader's Resolver::lookup*, decided on the MIR of /repo's current tree: the prefix loop is reachable only through the failing edge of the exact lookup on the whole name, the plural retry only through the failing edge of the full prefixed lookup and only with a trailing 's' stripped, and an earlier stage's hit is returned unchanged; the prefix loops iterate the prefix table itself forwards with first-match-wins and the siblings agree on that policy (so canonicalising and evaluation split a name identically); the prefixed value multiplies the exact unit by the value paired with the matched prefix; Context::lookup consults ans and the (provably cleared) load-time temporaries before the registry; the registry's containers are ordered and no hash iteration/clock/env is reachable from resolution. This is the order and determinism content of the property for all names; that canonicalising preserves the value for each of the ~500k names is data-dependent and not claimed.",
+  note="Trusted: the extractor's reading of today's loop idioms (a rewrite with iterator adaptors is reported, since first-match-wins can no longer be established); the driver; rustc's callee resolution.",
+  design_ref="DESIGN.md section 4, C07")
 NA = {
  "C05": "digit strings, recurring-block offsets and the 1-ulp truncation bound are number-theoretic facts about runtime values of p/q and the base; no structural clause is a genuine necessary condition (DESIGN.md section 4, C05)",
 }
